@@ -16,6 +16,11 @@ EXTRA_OPS = ["=~", "!~", "<$>", "<~", "+.", "-x", "&a&", "**", "=>", "<>", "<=>"
 
 def compare(s, hook_rec, table):
     """-> (status, detail, classes)"""
+    # absolute, whatever the reference tokenizer thinks of the input: an operator token carries the text of a registered operator
+    ops = table.all_ops()
+    for g in hook_rec.get("toks", []):
+        if g[0] == "op" and g[1] not in ops:
+            return "viol", "token %s is classified as an operator but `%s` is not a registered operator (registered: built-ins%s)" % (json.dumps(g, ensure_ascii=False), g[1], "".join(" + " + o for o in sorted(ops - ref.BUILTINS.all_ops()))), ()
     try:
         exp = ref.rtok(s, table)
     except ref.Abstain as e:
